@@ -183,6 +183,12 @@ func TestC14ChainKeys(t *testing.T) {
 		c := genChain(t, "c", 128)
 		checkKeys(t, c)
 		vev.Case(c14, vev.Digest("keys", vref.ChainKey(c)), c.Len() >= 2, "keys")
+		if c.Len() >= 2 {
+			at := rapid.IntRange(0, c.Len()-2).Draw(t, "extendat")
+			viaAll := rapid.Bool().Draw(t, "viaall")
+			checkDerivedStayConsistent(t, c, at, viaAll)
+			vev.Case(c14, vev.Digest("keys-append", vref.ChainKey(c), at, viaAll), true, "keys-after-append-to-prefix")
+		}
 	})
 }
 
@@ -209,6 +215,39 @@ func checkKeys(t vev.FailTB, c *gpbft.ECChain) {
 		}
 		if all[i].Len() != i+1 || !vref.ChainEq(all[i], &gpbft.ECChain{TipSets: c.TipSets[:i+1]}) {
 			vev.Fail(t, c14, "C14/keys/prefix-content", "AllPrefixes()[%d] is not the prefix of length %d", i, i+1)
+		}
+	}
+}
+
+// checkDerivedStayConsistent: the prefix objects the chain type hands out (AllPrefixes with
+// their cached keys, Prefix(i)) are used as values in their own right; extending one of them
+// (Append / Extend return a new chain) must leave the parent chain and every sibling object
+// what they were: same tipsets, and a cached key that is still the key of their content.
+func checkDerivedStayConsistent(t vev.FailTB, c *gpbft.ECChain, at int, viaAll bool) {
+	if c.Len() < 2 {
+		return
+	}
+	parent := vgen.CloneChain(c)
+	all := parent.AllPrefixes()
+	var victim *gpbft.ECChain
+	if viaAll {
+		victim = all[at]
+	} else {
+		victim = parent.Prefix(at)
+	}
+	before := victim.Len()
+	extra := &gpbft.TipSet{Epoch: victim.Head().Epoch + 1, Key: []byte("appended-to-a-prefix"), PowerTable: victim.Head().PowerTable}
+	longer := victim.Append(extra)
+	if longer.Len() != before+1 || !vref.TipSetEq(longer.TipSets[before], extra) || [32]byte(longer.Key()) != vref.ChainKey(longer) {
+		vev.Fail(t, c14, "C14/keys/append-result", "Append on a prefix object of length %d gave a chain of %d tipsets or a key that is not the key of its content", before, longer.Len())
+	}
+	if !vref.ChainEq(parent, c) || [32]byte(parent.Key()) != vref.ChainKey(c) {
+		vev.Fail(t, c14, "C14/keys/parent-changed-by-append", "appending to the prefix object of length %d (of %d) changed the chain it was derived from", at+1, c.Len())
+	}
+	for i, p := range all {
+		want := &gpbft.ECChain{TipSets: c.TipSets[:i+1]}
+		if !vref.ChainEq(p, want) || [32]byte(p.Key()) != vref.ChainKey(want) || [32]byte(p.Key()) != vref.ChainKey(p) {
+			vev.Fail(t, c14, "C14/keys/sibling-changed-by-append", "after appending to the prefix object of length %d, the prefix object of length %d no longer holds its tipsets or its cached key is not the key of its content", at+1, i+1)
 		}
 	}
 }
